@@ -43,37 +43,48 @@ def eqIgnoreAsciiCase : Bytes → Bytes → Bool
 
 def isCont (c : UInt8) : Bool := 0x80 ≤ c && c ≤ 0xBF
 
-/-- decode one scalar value from the front: `some (codepoint, rest)` or `none` if ill-formed -/
+/-- second byte of a 3-byte sequence (no overlongs, no surrogates) -/
+def second3 (a b : UInt8) : Bool :=
+  if a == 0xE0 then 0xA0 ≤ b && b ≤ 0xBF
+  else if a == 0xED then 0x80 ≤ b && b ≤ 0x9F
+  else isCont b
+
+/-- second byte of a 4-byte sequence (no overlongs, at most U+10FFFF) -/
+def second4 (a b : UInt8) : Bool :=
+  if a == 0xF0 then 0x90 ≤ b && b ≤ 0xBF
+  else if a == 0xF4 then 0x80 ≤ b && b ≤ 0x8F
+  else isCont b
+
+def ok2 (a b : UInt8) : Bool := 0xC2 ≤ a && a ≤ 0xDF && isCont b
+def ok3 (a b c : UInt8) : Bool := 0xE0 ≤ a && a ≤ 0xEF && second3 a b && isCont c
+def ok4 (a b c d : UInt8) : Bool := 0xF0 ≤ a && a ≤ 0xF4 && second4 a b && isCont c && isCont d
+
+def cp2 (a b : UInt8) : Nat := (a.toNat - 0xC0) * 64 + (b.toNat - 0x80)
+def cp3 (a b c : UInt8) : Nat := (a.toNat - 0xE0) * 4096 + (b.toNat - 0x80) * 64 + (c.toNat - 0x80)
+def cp4 (a b c d : UInt8) : Nat :=
+  (a.toNat - 0xF0) * 262144 + (b.toNat - 0x80) * 4096 + (c.toNat - 0x80) * 64 + (d.toNat - 0x80)
+
+/-- decode one scalar value from the front: `some (codepoint, rest)` or `none` if ill-formed.
+    (The lead-byte ranges of the three multi-byte forms are disjoint, so the order of the tests does
+    not matter.) -/
 def decodeOne : Bytes → Option (Nat × Bytes)
   | [] => none
   | a :: r =>
     if a < 0x80 then some (a.toNat, r)
-    else if 0xC2 ≤ a && a ≤ 0xDF then
+    else
       match r with
-      | b :: r' => if isCont b then some ((a.toNat - 0xC0) * 64 + (b.toNat - 0x80), r') else none
-      | _ => none
-    else if 0xE0 ≤ a && a ≤ 0xEF then
-      match r with
-      | b :: c :: r' =>
-        let okB := if a == 0xE0 then 0xA0 ≤ b && b ≤ 0xBF
-                   else if a == 0xED then 0x80 ≤ b && b ≤ 0x9F
-                   else isCont b
-        if okB && isCont c then
-          some ((a.toNat - 0xE0) * 4096 + (b.toNat - 0x80) * 64 + (c.toNat - 0x80), r')
-        else none
-      | _ => none
-    else if 0xF0 ≤ a && a ≤ 0xF4 then
-      match r with
-      | b :: c :: d :: r' =>
-        let okB := if a == 0xF0 then 0x90 ≤ b && b ≤ 0xBF
-                   else if a == 0xF4 then 0x80 ≤ b && b ≤ 0x8F
-                   else isCont b
-        if okB && isCont c && isCont d then
-          some ((a.toNat - 0xF0) * 262144 + (b.toNat - 0x80) * 4096 + (c.toNat - 0x80) * 64
-                + (d.toNat - 0x80), r')
-        else none
-      | _ => none
-    else none
+      | [] => none
+      | b :: r1 =>
+        if ok2 a b then some (cp2 a b, r1)
+        else
+          match r1 with
+          | [] => none
+          | c :: r2 =>
+            if ok3 a b c then some (cp3 a b c, r2)
+            else
+              match r2 with
+              | [] => none
+              | d :: r3 => if ok4 a b c d then some (cp4 a b c d, r3) else none
 
 /-- all scalar values of a byte string, or `none` if it is not well-formed UTF-8 -/
 def decodeUtf8Go : Nat → Bytes → List Nat → Option (List Nat)
